@@ -312,7 +312,7 @@ class ShardedSession(Session):
                 token = state.key[2]
                 assert token is not None
                 return token
-            elif state.identity_token:
+            elif state.identity_token is not None:
                 return state.identity_token
 
         assert isinstance(mapper, Mapper)
